@@ -45,7 +45,7 @@ PROFILES = {
     'C11': [(['m08'], FX, 300, 3000, None),
             (['m08'], dict(effects=0.2, enqueue=0.2, nops=80, stop=0.2), 60, 600, None)],
     'C12': [(['m01', 'm02', 'm03', 'm05', 'm06', 'm07', 'm11', 'm17'], FAIL, 120, 1200, None),
-            (['m04', 'm08', 'm10'], FAIL, 60, 600, None),
+            (['m04', 'm08', 'm10', 'm12', 'm13', 'm20'], FAIL, 60, 600, None),
             # 'the active state afterwards is the one the policy prescribes for the phase of the throw': the three
             # non-default active-state-switch policies (builds shared with C19)
             (['m01', 'm03', 'm10'], dict(effects=0.1, enqueue=0.05, fail=0.6), 100, 600, ['b', 'b11', 'mf'], 1),
